@@ -52,3 +52,99 @@ CHECKS["C06"] = {
         ]},
     ],
 }
+
+
+# ======================================================================================
+# E-MIR checks
+# ======================================================================================
+MIRENV = ["the crate's MIR (pre-coroutine-lowering bodies, dumped by `cargo +nightly rustc -Zdump-mir=StateTransform` from an overlay of /repo/src on every run) is executed by the symbolic interpreter bin/mirse: real control flow, real drop elaboration, real unwind edges",
+          "tokio is a python model with the same rules as /verif/models/tokio (mpsc permits + FIFO waiters + cancel-safe send, oneshot, virtual clock, select! = tokio's real macro, interpreted)",
+          "std functions called by the crate are python builtins (Option/Result/Box/Arc/atomics/OnceLock/Mutex/HashMap/Duration/Instant); tracing is a no-op",
+          "the user actor is scripted: hook outcomes (Ok/Err/panic), number of await points per hook, handler actions are enumerated scenario parameters",
+          "schedules: every interleaving of task polls up to quiescence, modulo sleep-set partial-order reduction over model-object footprints; a task is offered only if an object it waits on changed",
+          "single-threaded interleaving semantics (one poll is atomic); real OS threads and tokio's work stealing are outside"]
+MIRTRUST = ["bin/mirse interpreter + builtins (validated by replay and by the Kani harnesses of the same functions)", "python tokio model", "z3 4.x", "rustc nightly MIR dump"]
+
+
+def m(fn, bounds="", encodes="", **kw):
+    d = {"fn": fn, "bounds": bounds, "encodes": encodes}
+    d.update(kw)
+    return d
+
+
+LIFE_FUNCS = ["actor::run_actor_lifecycle (async body + the select! poll_fn closure)", "spawn_with_mailbox_capacity", "ActorRef::{tell,ask,tell_with_timeout,ask_with_timeout,stop,kill,clone,downgrade,identity}", "ActorWeak::{upgrade,is_alive}",
+              "<T as PayloadHandler<A>>::handle_message (+ its async block)", "dead_letter::record"]
+
+
+def mircheck(pid, title, technique, scen, bounds, outside, explanation, level="model_checking", feats=(), extra_groups=()):
+    CHECKS[pid] = {
+        "title": title, "level": level, "technique": technique, "functions": LIFE_FUNCS, "bounds": bounds, "outside": outside,
+        "assumptions": MIRENV, "trusted_base": MIRTRUST, "explanation": explanation,
+        "groups": list(extra_groups) + [{"engine": "mir", "features": list(feats), "scenarios": scen}],
+    }
+
+
+SYMEX = "symbolic execution of the crate's MIR (z3-decided path conditions and assertions) under an exhaustively explored symbolic scheduler"
+B_SENDERS = "quick: 6 configurations (capacity 1-2, handler 0-1 await points, ending by last-drop or stop()), 2 senders + stopper, 3 messages; thorough: 11 configurations, capacity 1-3, up to 4 messages; all interleavings to quiescence"
+B_ENDINGS = "14 termination causes (stop, kill, last drop, on_start Err/panic, on_run Err/panic, handler panic, on_stop Err/panic after stop, on_run Err + on_stop Err, kill + on_stop Err, slow on_start + kill/stop) x 2 concurrent askers (+ a late prober) x capacity 1-2; all interleavings to quiescence"
+
+mircheck("C01", "Accepted messages are handled exactly once; rejected ones never", SYMEX,
+         [m("senders", B_SENDERS, "exactly-once / never-after-rejection / nothing accepted before stop or last drop is lost"),
+          m("drop_immediately", "references dropped immediately after send returns, capacity 1-2, slow handler, 2 senders, 3 messages"),
+          m("timeouts", "tell_with_timeout / ask_with_timeout, symbolic timeout <= 6 ns, <= 2 symbolic clock advances <= 4 ns, mailbox free/full/dying", "a timed-out tell is withdrawn and never handled")],
+         B_SENDERS, "more than 3 senders / 4 messages; real threads; blocking variants (see C17)",
+         "for every explored schedule the monitor compares mailbox acceptance events, handler entries and client results")
+mircheck("C02", "Handling order respects mailbox acceptance order", SYMEX,
+         [m("senders", B_SENDERS, "handled sequence = acceptance sequence; completed-before-started sends keep their order; stop() marker position"),
+          m("drop_immediately", "capacity 1-2 with senders queued for the slot")],
+         B_SENDERS, "blocking and type-erased variants are covered by C16/C17 only as far as those are claimed",
+         "handling order is compared with acceptance order and with the real-time order of completed sends on every explored schedule")
+mircheck("C03", "ask: the reply belongs to the request, and ask never hangs on a dead actor", SYMEX,
+         [m("endings", B_ENDINGS, "Ok(v) => v = f(own id) and own handler completed; no ask pending at quiescence; asks after the end fail"),
+          m("senders", B_SENDERS)],
+         B_ENDINGS, "reply types other than the scripted u8; ask_join is checked at function level by Kani (c03 harnesses) only",
+         "quiescence = no task can make progress: an ask still pending there is a hang")
+mircheck("C04", "Lifecycle hooks run in order", SYMEX,
+         [m("endings", B_ENDINGS, "on_start first and once; nothing before it succeeds; on_stop at most once, last, exactly for stop/kill/unref/on_run-Err; killed flag iff a Terminate was consumed"),
+          m("kill_preempts", "kill at any moment, mailbox up to 3 entries, handler/on_run possibly suspended"),
+          m("idle_handler", "6 on_run scripts x capacity 1-2")],
+         B_ENDINGS, "panics are raised at hook completion points (MIR unwind edges are followed for real); panics in the middle of a hook body's own code are the user's code",
+         "hook enter/poll/exit events are checked against the grammar on every explored schedule")
+mircheck("C05", "ActorResult truthfully reports how the actor ended", SYMEX,
+         [m("endings", B_ENDINGS, "variant, phase, killed, the very error value, actor presence and the count of completed hooks vs. the trace"),
+          m("kill_preempts", "kill + queued work")],
+         B_ENDINGS, "accessor laws are in the Kani group", "JoinHandle output vs. an oracle computed from the hook trace of the same run",
+         extra_groups=CHECKS["C05"]["groups"])
+CHECKS["C05"]["functions"] = LIFE_FUNCS + ["ActorResult accessors (Kani)"]
+CHECKS["C05"]["technique"] = "Kani/CBMC (accessor laws over a symbolic value) + " + SYMEX
+mircheck("C06", "kill() pre-empts the mailbox and never blocks", SYMEX,
+         [m("kill_preempts", "mailbox cap 3 holding up to 3 messages (one ask), 1-2 kill() calls at any moment, handler with 0-1 await points, on_run yielding or not", "<= 1 handler starts after kill() returned; on_stop(true); killed=true; leftovers never handled, their asks fail"),
+          m("endings", B_ENDINGS)],
+         "see scenarios", "real threads (the '<= 1 further handler' slack exists for them; the interleaving model gives 0)",
+         "biased select order is decided on the interpreted select! closure: removing `biased` makes the start branch a scheduler decision",
+         extra_groups=CHECKS["C06"]["groups"])
+CHECKS["C06"]["technique"] = "Kani/CBMC (kill() against symbolic channel state) + " + SYMEX
+mircheck("C07", "Actors end when stopped or unreferenced, and only then", SYMEX,
+         [m("ref_histories", "5 histories of clone/drop/downgrade/upgrade (weak-only, upgrade keeps alive, last reference inside queued envelopes, clone chain, one reference kept) x handler duration", "ended <=> stop/kill/error or no strong reference; kept reference => still serving"),
+          m("senders", B_SENDERS), m("idle_handler", "on_run Ok(false) must not end the actor")],
+         "see scenarios", "trait-object handles (C16)", "task state at quiescence vs. the model's strong-sender count and the causes seen in the trace")
+mircheck("C08", "on_run is an idle handler", SYMEX,
+         [m("idle_handler", "on_run scripts {T1 F, T1 T1 F, F, T1 Err, F with 1 await, T0 F} x capacity 1-2 x a sender issuing tell, yield, tell, ask", "no on_run body poll while a message waits or a kill is pending; silence after Ok(false); Err => on_stop(false) + Failed"),
+          m("kill_preempts", "on_run suspended when the kill arrives")],
+         "see scenarios", "on_run futures with more than 1 await point", "every poll of the scripted on_run future records the mailbox length and kill flag at that instant")
+mircheck("C09", "Mailbox capacity is a hard bound with waiting back-pressure", SYMEX,
+         [m("senders", B_SENDERS, "channel created with the requested capacity; occupancy <= capacity; nobody waits while a slot is free; no Err(Send) on a live actor"),
+          m("drop_immediately", "capacity 1-2, 3 senders' messages")],
+         "capacities 1-3", "the process-wide default (set_default_mailbox_capacity / spawn) is checked by the function-level group", "occupancy statistics of the model channel + pending operations at quiescence")
+mircheck("C10", "Timeouts are exact", SYMEX,
+         [m("timeouts", "op in {tell_with_timeout, ask_with_timeout}; mailbox free/full/dying (kill); handler 0 or 2 await points; timeout d symbolic in [0,6] ns; up to 2 (thorough 3) clock advances, each symbolic in [0,4] ns, at any point of the schedule", "Err(Timeout) => now >= start+d (valid for all d,dt); pending at quiescence => now < start+d; the Duration given to the timer is the caller's")],
+         "see scenario", "blocking variants with timeout (C17); the real timer wheel", "the deadline inequalities are z3 validity queries over the symbolic timeout and clock increments")
+mircheck("C12", "A failing actor fails alone", SYMEX,
+         [m("failing_alone", "actors A and B holding references to each other; A panics in on_start / a handler / on_run / on_stop or fails in on_run; B's handler asks A; a client asks B", "A's JoinHandle reports the panic; B passes the C01/C02/C04/C05 monitors, keeps answering and completes normally; distinct ids")],
+         "see scenario", "poisoning of the wait-for graph lock is checked under C14/C15's feature set only", "real MIR unwind edges are followed; the dropped-future path of a panicked task is executed")
+mircheck("C13", "Exactly one dead letter per failed delivery, none per success", SYMEX,
+         [m("endings", B_ENDINGS, "multiset of (operation label, reason, actor id) recorded by dead_letter::record = multiset predicted from the returned errors"),
+          m("timeouts", "timeout / actor-stopped / reply-dropped outcomes of the *_with_timeout wrappers"),
+          m("senders", B_SENDERS)],
+         "see scenarios", "the message type name inside the record (checked by the Kani harness c13); blocking variants (C17); the counter under real thread concurrency",
+         "calls of the real dead_letter::record are observed with their arguments")
